@@ -35,7 +35,7 @@ import (
 func init() { register("C08", runC08) }
 
 type c08PreFile struct {
-	Kind       string        `json:"kind"` // absent empty ws garbage truncated meta
+	Kind       string        `json:"kind"` // absent empty ws garbage truncated meta dir
 	CreatedAge time.Duration `json:"created_age_ns,omitempty"`
 	UpdatedAge time.Duration `json:"updated_age_ns,omitempty"`
 	NoCreated  bool          `json:"no_created,omitempty"`
@@ -155,6 +155,7 @@ type c08Result struct {
 	PreAbs   [2]int64      // created, updated relative to base (ns), for meta files
 	Skipped  string
 	Early    bool
+	Horizon  time.Duration // effective: the planned one, or the instant the scenario was complete
 	Duration time.Duration
 }
 
@@ -166,6 +167,9 @@ func c08WritePre(fs *certmagic.FileStorage, name string, pre c08PreFile, base ti
 	fn := certmagic.VerifLockFilename(fs, name)
 	if err := os.MkdirAll(filepath.Dir(fn), 0o700); err != nil {
 		return rel, err
+	}
+	if pre.Kind == "dir" { // something that is not a regular file sits at the lock file's path
+		return rel, os.Mkdir(fn, 0o755)
 	}
 	var content string
 	switch pre.Kind {
@@ -384,6 +388,7 @@ func c08Run(tmproot string, sc c08Scenario) (*c08Result, error) {
 	// the scenario ends at the horizon, or earlier once every thread has returned and every
 	// planned unlock / kill / signal has happened
 	deadline := base.Add(sc.Horizon)
+	res.Horizon = sc.Horizon
 	for time.Now().Before(deadline) {
 		time.Sleep(20 * time.Millisecond)
 		mu.Lock()
@@ -413,7 +418,7 @@ func c08Run(tmproot string, sc c08Scenario) (*c08Result, error) {
 	end := time.Now()
 	if end.Before(deadline) {
 		// finished early: observations are complete; the model may look a little further
-		res.Sc.Horizon = end.Sub(base)
+		res.Horizon = end.Sub(base) // the planned horizon stays in Sc (a replay runs the plan again)
 		res.Early = true
 	}
 	endAll()
@@ -451,7 +456,7 @@ func c08Run(tmproot string, sc c08Scenario) (*c08Result, error) {
 			res.Skipped = fmt.Sprintf("thread %d started %.0f ms off plan", th.Tid, float64(o.Start-int64(th.StartAt))/1e6)
 		}
 		if !o.started {
-			if _, killed := res.KillAt[th.Pid]; !killed && int64(th.StartAt) < int64(res.Sc.Horizon) {
+			if _, killed := res.KillAt[th.Pid]; !killed && int64(th.StartAt) < int64(res.Horizon) {
 				res.Skipped = fmt.Sprintf("thread %d never started", th.Tid)
 			}
 		}
@@ -612,7 +617,7 @@ func c08Emit(w *emit.Writer, res *c08Result) {
 		}
 		groups[f] = append(groups[f], th)
 	}
-	hz := int64(sc.Horizon)
+	hz := int64(res.Horizon)
 	for gi, f := range order {
 		ths := groups[f]
 		type ev struct {
@@ -664,7 +669,7 @@ func c08Emit(w *emit.Writer, res *c08Result) {
 			e.Int(0)
 		case "empty", "ws":
 			e.Int(1)
-		case "garbage", "truncated":
+		case "garbage", "truncated", "dir":
 			e.Int(2)
 		case "meta":
 			e.Int(3)
@@ -794,6 +799,7 @@ func c08Table(r *rand.Rand, tier string) []c08Scenario {
 		{"whitespace", c08PreFile{Kind: "ws"}},
 		{"truncated-json", c08PreFile{Kind: "truncated"}},
 		{"garbage", c08PreFile{Kind: "garbage"}},
+		{"directory-at-lock-path", c08PreFile{Kind: "dir"}},
 	}
 	var out []c08Scenario
 	add := func(name string, p c08PreFile, c ctxk) {
